@@ -9,11 +9,5 @@ open CalmVerif.Props.C01typed
 #check @fixed_spellings_ok
 #print axioms parsed_tree_well_typed
 #check @parsed_tree_well_typed
-#print axioms parsed_pretty_stream_typed
-#check @parsed_pretty_stream_typed
-#print axioms parsed_minify_stream_typed
-#check @parsed_minify_stream_typed
-#print axioms parsed_pretty_lines_indented
-#check @parsed_pretty_lines_indented
-#print axioms parsed_pretty_ends_with_one_newline
-#check @parsed_pretty_ends_with_one_newline
+#print axioms parsed_good
+#check @parsed_good
